@@ -102,6 +102,22 @@ func (o Obs) Raw() string {
 	return sb.String()
 }
 
+// ObserveW observes through a worker's server in one round trip (same commands as Observe).
+func ObserveW(w *Worker, root string) Obs {
+	batch, ok := w.Srv.RunObserve(root)
+	if !ok {
+		return Obs{Fail: "server: " + batch.Res[0].String()}
+	}
+	i := 0
+	return Observe(func(r Req) Res {
+		if i < len(batch.Res) {
+			i++
+			return batch.Res[i-1]
+		}
+		return w.Srv.Run(r) // not expected; falls back to a real call
+	}, root)
+}
+
 // Observe runs the read commands through run (cwd = project root).
 func Observe(run func(Req) Res, root string) Obs {
 	o := Obs{Shows: map[string]Show{}, RawShow: map[string]string{}}
